@@ -24,7 +24,7 @@ DEFS = ("(defmacro inc (var) (list 'setq var (list '+ 1 var))) "
         "(defmacro kw (a &optional (b 5)) a)")
 
 def atom(rng):
-    return rng.choice(["1", "2", "v", "w", "nil", "t", "'q", '"s"', "(tick 5)", "(+ v 1)", "(list v w)"])
+    return rng.choice(["1", "2", "v", "w", "nil", "t", "'q", '"s"', "(tick 5)", "(+ v 1)", "(list v w)", "s", "(list s v)"])
 
 def form(rng, d):
     if d <= 0: return atom(rng)
@@ -65,15 +65,15 @@ def generate(tier, seed):
     n = 2500 if tier == "quick" else 60000
     pre = ["EVAL (setq expansions 0) " + DEFS,
            "EVAL (defun fn1 (a) (when a (inc a)) (my-if a (list 'fn1 a) 'none))",
-           "EVAL (setq v 1) (setq w 10) (setq cnt 0)"]
+           "EVAL (setq v 1) (setq w 10) (setq cnt 0) (setq s 'user-s)"]
     for _ in range(n):
         F = form(rng, rng.choice([1, 2, 2, 3]))
         lines += ["NEW"] + pre + ["EVAL (macroexpand '%s)" % F,
                                    "EVAL (let ((e1 (macroexpand '%s))) (equal (macroexpand e1) e1))" % F,
-                                   "EVAL (setq v 1) (setq w 10) (setq cnt 0)",
-                                   "EVAL " + F, "TICKS", "DUMP v w cnt x1 x2 x3",
-                                   "EVAL (setq v 1) (setq w 10) (setq cnt 0)",
-                                   "EVAL (eval (macroexpand '%s))" % F, "TICKS", "DUMP v w cnt x1 x2 x3"]
+                                   "EVAL (setq v 1) (setq w 10) (setq cnt 0) (setq s 'user-s)",
+                                   "EVAL " + F, "TICKS", "DUMP v w cnt x1 x2 x3 s",
+                                   "EVAL (setq v 1) (setq w 10) (setq cnt 0) (setq s 'user-s)",
+                                   "EVAL (eval (macroexpand '%s))" % F, "TICKS", "DUMP v w cnt x1 x2 x3 s"]
         nt.add(F)
     # built-in macros with 0..4 plain argument forms
     for m in ["when", "unless", "if-let", "if-let*", "when-let", "while-let", "->", "->>", "thread-first", "thread-last", "quote"]:
